@@ -852,7 +852,8 @@ class StoryMove(MosFile):
             raise MosMergeError(
                 f"{self.__class__.__name__} error in {self.message_id} - no stories given"
             )
-        if self.target_story is None:
+        if self.target_story is None or self.target_story.id is None:
+            # no (or a blank) second storyID: move to the bottom
             target_story = None
         else:
             target_story, target_story_index = find_child(parent=ro.base_tag, child_tag='story', id=self.target_story.id)
@@ -1911,7 +1912,8 @@ class EAStoryMove(ElementAction):
         """
         Merge into the :class:`RunningOrder` object provided.
         """
-        if self.story is None:
+        if self.story is None or self.story.id is None:
+            # no element_target (or a blank storyID): move to the bottom
             target_story = None
         else:
             target_story, target_story_index = find_child(parent=ro.base_tag, child_tag='story', id=self.story.id)
@@ -1998,11 +2000,15 @@ class EAItemMove(ElementAction):
             raise MosMergeError(
                 f"{self.__class__.__name__} error in {self.message_id} - story not found"
             )
-        target_item, target_item_index = find_child(parent=story, child_tag='item', id=self.item.id)
-        if target_item is None:
-            raise MosMergeError(
-                f"{self.__class__.__name__} error in {self.message_id} - target item not found"
-            )
+        if self.item.id is None:
+            # blank itemID: move to the bottom of the story
+            target_item = None
+        else:
+            target_item, target_item_index = find_child(parent=story, child_tag='item', id=self.item.id)
+            if target_item is None:
+                raise MosMergeError(
+                    f"{self.__class__.__name__} error in {self.message_id} - target item not found"
+                )
         # find every source item before changing anything
         source_items = []
         for source_item in self.items:
